@@ -13,6 +13,7 @@ Decided (structural necessary conditions; networkx's search itself is trusted):
  R5 helpers      : ispart rejects a missing or out-of-order element; find_reversed_path starts at the last and ends at
                    the first element of the forward path and goes through the reverse OMS of every crossed OMS;
                    explicit_path returns only when first/last OMS touch the end ROADMs and consecutive OMS are adjacent.
+ Rm memo          : every memoisation construct in the functions behind this property is keyed by everything it reads.
 """
 import ast
 
@@ -297,5 +298,10 @@ def r5_helpers(ctx):
     ctx.need('R5.helpers', 4)
 
 
+
+from ..memo import rule_for as _memo_rule
+
+RULES_MEMO = ('Rm.memo', _memo_rule('C11', 'a route computed for another request or topology would be returned'))
+
 RULES = [('R1.metric', r1_metric), ('R2.outcomes', r2_outcomes), ('R3.reasons', r3_reasons), ('R4.route-lists', r4_route_lists),
-         ('R5.helpers', r5_helpers)]
+         ('R5.helpers', r5_helpers), RULES_MEMO]
